@@ -217,12 +217,16 @@ func checkC19(c *km.Ctx) {
 
 	// ---------- R-C19-2
 	if fn := c.MustFunc("R-C19-2", "lib/client/twofa", "doCertRequest"); fn != nil {
-		signer := fn.Params[0]
+		signer := km.ParamAt(fn, 0)
 		for _, ci := range km.CallsIn(fn) {
 			if km.StaticCallee(ci.Common()) == nil || km.StaticCallee(ci.Common()).Name() != "doCertRequestInternal" {
 				continue
 			}
-			ok, why := derivesOnlyFromPublic(ci.Common().Args[2], signer, 0)
+			ca := km.CallArgs(ci.Common())
+			if len(ca) < 3 {
+				continue
+			}
+			ok, why := derivesOnlyFromPublic(ca[2], signer, 0)
 			r.Add("R-C19-2", km.FuncName(fn), "key text in the certificate request", posOf(c, ci), "derives only from signer.Public() (PKIX PEM or authorized-key encoding)", why, ok)
 		}
 	}
@@ -230,7 +234,7 @@ func checkC19(c *km.Ctx) {
 		// the file part is the filedata parameter
 		ok := false
 		for _, ci := range km.CallsIn(fn) {
-			if km.CalleeFull(ci.Common()) == "strings.NewReader" && km.Unwrap(ci.Common().Args[0]) == ssa.Value(fn.Params[2]) {
+			if km.CalleeFull(ci.Common()) == "strings.NewReader" && km.Unwrap(ci.Common().Args[0]) == ssa.Value(km.ParamAt(fn, 2)) {
 				ok = true
 			}
 		}
@@ -280,7 +284,7 @@ func checkC19(c *km.Ctx) {
 			})
 			sameComment := st.All(func(k km.Conj) bool {
 				for _, f := range k.List() {
-					if f.Op == token.EQL && ((mentionsField(f.X, "Comment") && km.Unwrap(f.Y) == ssa.Value(fn.Params[0])) || (mentionsField(f.Y, "Comment") && km.Unwrap(f.X) == ssa.Value(fn.Params[0]))) {
+					if f.Op == token.EQL && ((mentionsField(f.X, "Comment") && km.Unwrap(f.Y) == ssa.Value(km.ParamAt(fn, 0))) || (mentionsField(f.Y, "Comment") && km.Unwrap(f.X) == ssa.Value(km.ParamAt(fn, 0)))) {
 						return true
 					}
 				}
